@@ -582,6 +582,210 @@ def star_disagreement(c, io):
     return None
 
 
+# ---- identity wrappers and NULL-typed outputs: q = SELECT * FROM (... SELECT * FROM <#t | SELECT a, NULL AS x, b FROM #t>
+# <one clause> ...) <one clause>, depth 0-3, each level carrying nothing, LIMIT 0 / 1 / n, DISTINCT, WHERE FALSE / TRUE /
+# a IS NOT NULL, ORDER BY, or a few of them.  A level that "does nothing but one thing" is where an implementation is
+# tempted to look through the subquery.  Three oracles per outer use of (q): the nested statement, the same outer statement
+# over a harness table holding q's rows and carrying q's DESCRIPTION datatypes (q computed level by level, each level over
+# a harness table: never nested), and a plain-Python fold of the clauses (rows of q, membership for the IN forms).
+WRAP_TYPES = [T_INT, T_STR, T_DEC, T_DATE, T_BOOL]
+
+
+def gen_wrap_clause(rng):
+    w = {'distinct': False, 'where': None, 'order': None, 'limit': None}
+    r = rng.random()
+    if r < 0.72:     # exactly one thing (or nothing)
+        k = rng.choice(['none', 'limit0', 'limit0', 'limit0', 'limit1', 'limit2', 'distinct', 'false', 'true', 'notnull', 'order'])
+    else:
+        k = 'mix'
+    if k in ('limit0', 'limit1', 'limit2'):
+        w['limit'] = int(k[-1])
+    elif k == 'distinct':
+        w['distinct'] = True
+    elif k in ('false', 'true'):
+        w['where'] = k.upper()
+    elif k == 'notnull':
+        w['where'] = 'a IS NOT NULL'
+    elif k == 'order':
+        w['order'] = ['a', rng.random() < 0.5]
+    elif k == 'mix':
+        w['distinct'] = rng.random() < 0.4
+        w['where'] = rng.choice([None, None, 'TRUE', 'FALSE', 'a IS NOT NULL'])
+        w['order'] = ['a', rng.random() < 0.5] if rng.random() < 0.4 else None
+        w['limit'] = rng.choice([None, 0, 0, 1, 3])
+    return w
+
+
+def wrap_clause_sql(w, src):
+    return ('SELECT ' + ('DISTINCT ' if w['distinct'] else '') + '* FROM ' + src + (f' WHERE {w["where"]}' if w['where'] else '')
+            + (f' ORDER BY {w["order"][0]}' + (' DESC' if w['order'][1] else '') if w['order'] else '')
+            + (f' LIMIT {w["limit"]}' if w['limit'] is not None else ''))
+
+
+def gen_wrap_case(rng):
+    tb = rng.choice(WRAP_TYPES)
+    cols = [('a', T_INT), ('b', tb), ('c', T_STR)]
+    pa, pb = rng.sample(values.POOLS[int], 3), rng.sample(values.POOLS[PY[tb]], min(2, len(values.POOLS[PY[tb]])))
+    rows = [(None if rng.random() < 0.15 else rng.choice(pa), None if rng.random() < 0.15 else rng.choice(pb), rng.choice(['p', 'q']))
+            for _ in range(rng.choice([1, 2, 4, 7, 7]))]
+    base = rng.choice(['table', 'table', 'table', 'null-literal', 'null-literal', 'param-none', 'param-int', 'aliased'])
+    params = None
+    if base == 'table':
+        proj, base_sql = None, None
+    else:
+        xs = {'null-literal': 'NULL', 'param-none': '%s', 'param-int': '%s', 'aliased': 'b'}[base]
+        proj = [['a', 0], ['b', 1]]
+        xv = 1 if base == 'aliased' else ('const', 5 if base == 'param-int' else None)
+        proj.insert(rng.randrange(3), ['x', xv])
+        if base.startswith('param'):
+            params = [None] if base == 'param-none' else [5]
+        base_sql = 'SELECT ' + ', '.join(n if n != 'x' else f'{xs} AS x' for n, _ in proj) + ' FROM #t'
+    depth = rng.choice([1, 1, 2, 3]) if base == 'table' else rng.choice([0, 1, 1, 2])
+    wraps = [gen_wrap_clause(rng) for _ in range(depth)]
+    names = [n for n, _ in proj] if proj else ['a', 'b', 'c']
+    forms = ['SELECT * FROM (q)']
+    pool = ['SELECT * FROM (SELECT * FROM (q))', 'SELECT count(a) AS n FROM (q)', 'SELECT a FROM (q) WHERE a > 0',
+            'SELECT a, a IN (SELECT a FROM (q)) AS i FROM #t', 'SELECT a FROM #t WHERE a NOT IN (SELECT a FROM (q))',
+            'SELECT b, a FROM (q) ORDER BY a DESC LIMIT 2', 'SELECT DISTINCT a FROM (q)']
+    if 'x' in names:
+        pool += ['SELECT x FROM (q)', 'SELECT a FROM (q) WHERE x = 7', 'SELECT x + 1 AS y FROM (q)', 'SELECT a FROM (q) WHERE x IS NULL',
+                 'SELECT count(x) AS n FROM (q)', 'SELECT a FROM (q) ORDER BY x, a', 'SELECT a, x IN (SELECT x FROM (q)) AS i FROM (q)']
+        forms += rng.sample(pool[7:], 3)
+    forms += rng.sample(pool[:7], 3)
+    return {'cols': cols, 'rows': rows, 'base': base, 'base_sql': base_sql, 'proj': proj, 'params': params, 'wraps': wraps,
+            'forms': forms}
+
+
+def wrap_q_sql(c, upto=None):
+    """q as ONE nested statement"""
+    sql = c['base_sql']
+    for w in (c['wraps'] if upto is None else c['wraps'][:upto]):
+        sql = wrap_clause_sql(w, '#t' if sql is None else f'({sql})')
+    return sql
+
+
+def wrap_fold(c):
+    """plain Python: the rows of q"""
+    rows = [tuple(r) for r in c['rows']]
+    if c['proj']:
+        rows = [tuple(r[v] if isinstance(v, int) else v[1] for _, v in c['proj']) for r in rows]
+        names = [n for n, _ in c['proj']]
+    else:
+        names = ['a', 'b', 'c']
+    ia = names.index('a')
+    for w in c['wraps']:
+        if w['where'] == 'FALSE':
+            rows = []
+        elif w['where'] == 'a IS NOT NULL':
+            rows = [r for r in rows if r[ia] is not None]
+        if w['order']:
+            rows = sorted(rows, key=lambda r: (r[ia] is not None, r[ia] if r[ia] is not None else 0), reverse=w['order'][1])
+        if w['distinct']:
+            seen, out = [], []
+            for r in rows:
+                if r not in seen:
+                    seen.append(r)
+                    out.append(r)
+            rows = out
+        if w['limit'] is not None:
+            rows = rows[:w['limit']]
+    return names, rows
+
+
+def run_wrap_impl(c):
+    cols = [(n, PY[ty]) for n, ty in c['cols']]
+    trows = [tuple(r) for r in c['rows']]
+    params = tuple(c['params']) if c['params'] else None
+
+    def res(conn, sql, par=None):
+        try:
+            cur = conn.execute(sql, par) if par else conn.execute(sql)
+            rows = cur.fetchall()
+            return [0, values.canon_rows(rows), [[d.name, d.datatype.__name__] for d in cur.description]], rows, [(d.name, d.datatype) for d in cur.description]
+        except Exception as e:  # noqa: BLE001
+            return ['exception', impl.exc_class(e), str(e)[:120]], None, None
+
+    def fresh(extra=None):
+        tabs = {'t': impl.make_table('t', cols, trows)}
+        tabs.update(extra or {})
+        return impl.connection(tabs)
+    out = {'forms': {}}
+    # q level by level, never nested
+    mcols, mrows, step = cols, trows, None
+    steps = ([c['base_sql']] if c['base_sql'] else []) + [wrap_clause_sql(w, '#m') for w in c['wraps']]
+    for i, sql in enumerate(steps):
+        if i == 0 and c['base_sql']:
+            step, mrows, mcols = res(fresh(), sql, params)
+        else:
+            step, mrows, mcols = res(fresh({'m': impl.make_table('m', mcols, mrows)}), sql)
+        if step[0] != 0:
+            break
+    out['q_levelwise'] = step
+    names, frows = wrap_fold(c)
+    out['q_fold'] = [names, values.canon_rows(frows)]
+    qsql = wrap_q_sql(c)
+    out['q_nested'] = res(fresh(), qsql, params)[0]
+    if step[0] != 0:
+        return out
+    avals = [r[names.index('a')] for r in frows]
+    for f in c['forms']:
+        nsql = f.replace('(q)', f'({qsql})')
+        nested = res(fresh(), nsql, params * nsql.count('%s') if params else None)[0]
+        mat = res(fresh({'m': impl.make_table('m', mcols, mrows)}), f.replace('(q)', '#m'))[0]
+        o = {'nested': nested, 'mat': mat}
+        if f.startswith('SELECT a, a IN (SELECT a FROM (q))'):
+            o['fold'] = values.canon_rows([(r[0], None if r[0] is None or not avals else r[0] in avals) for r in trows])
+        elif f.startswith('SELECT a FROM #t WHERE a NOT IN'):
+            o['fold'] = values.canon_rows([(r[0],) for r in trows if r[0] is not None and avals and r[0] not in avals])
+        elif f == 'SELECT * FROM (q)' or f == 'SELECT * FROM (SELECT * FROM (q))':
+            o['fold'] = values.canon_rows(frows)
+        out['forms'][f] = o
+    return out
+
+
+def wrap_disagreement(c, io):
+    lv = io['q_levelwise']
+    if lv[0] != 0:
+        return f'q computed level by level raised {lv}'
+    if lv[1] != io['q_fold'][1] or [n for n, _ in lv[2]] != io['q_fold'][0]:
+        return f'q computed level by level gives {lv[1]} {lv[2]} but the clauses folded in Python give {io["q_fold"]}'
+    if io['q_nested'] != lv:
+        return f'q as one nested statement gives {io["q_nested"]} but level by level over materialised tables {lv}'
+    for f, o in io['forms'].items():
+        if o['nested'][:2] != o['mat'][:2] or (o['nested'][0] == 0 and o['nested'] != o['mat']):
+            return f'{f}: nested gives {o["nested"]} but over a table holding q\'s rows and datatypes {lv[2]} it gives {o["mat"]}'
+        if 'fold' in o and (o['nested'][0] != 0 or o['nested'][1] != o['fold']):
+            return f'{f}: nested gives {o["nested"]} but q\'s rows folded in Python give {o["fold"]}'
+        if f == 'SELECT * FROM (q)' and o['nested'][2] != lv[2]:
+            return f'{f}: description {o["nested"][2]} differs from q\'s description {lv[2]}'
+    return None
+
+
+def wrap_text(c):
+    return (f'q = {wrap_q_sql(c)}' + (f' with parameters {c["params"]}' if c['params'] else '') + f' over #t {c["cols"]} {c["rows"]}')
+
+
+def shrink_wrap(c):
+    """fewest rows, then fewest outer forms, that still disagree"""
+    rows = list(c['rows'])
+    i = 0
+    while i < len(rows):
+        d = dict(c)
+        d['rows'] = rows[:i] + rows[i + 1:]
+        if wrap_disagreement(d, run_wrap_impl(d)):
+            rows = d['rows']
+        else:
+            i += 1
+    d = dict(c)
+    d['rows'] = rows
+    for f in c['forms']:
+        e = dict(d)
+        e['forms'] = [f]
+        if wrap_disagreement(e, run_wrap_impl(e)):
+            return e
+    return d
+
+
 def generate():
     """translator tie: regenerate coq/Gen/SrcSubquery.v from the source of the imported beanquery.query_compile (py2mini +
     the rules and the structural reading of the column factory in src_subquery.py)"""
@@ -605,6 +809,8 @@ def run(tier, rng):
     shaped_impl = core.pmap(run_in_shaped_impl, shaped)
     starcases = star_sweep_cases() + [gen_star_case(rng) for _ in range(250 if tier == 'quick' else 5000)]
     star_impl = core.pmap(run_star_impl, starcases)
+    wrapcases = [gen_wrap_case(rng) for _ in range(220 if tier == 'quick' else 3000)]
+    wrap_impl = core.pmap(run_wrap_impl, wrapcases)
     models = core.coq_eval('c08', IMPORTS, [model_expr(c) for c in cases] + [c['coq'] for c in incases]
                            + [c['coq'] for c in shaped], shard=120)
     shaped_models = models[len(cases) + len(incases):]
@@ -703,6 +909,36 @@ def run(tier, rng):
                 violations.append(core.Violation(
                     'star-special-names', f'over #t {small["cols"]} {small["rows"]}: {star_disagreement(small, run_star_impl(small))}',
                     {'kind': 'star-names', 'case': small, 'impl': run_star_impl(small)}, signature=sig))
+    whist = {'base': {}, 'depth': {}, 'level_clause': {}, 'outer_form': {}, 'limit0_only_level': 0, 'q_empty': 0,
+             'q_nonempty': 0, 'nonetype_output_column': 0, 'outer_use_rejected_nested_and_materialised': 0,
+             'outer_uses_compared': 0, 'fold_compared': 0}
+    nwrap_bad = 0
+    for c, io in zip(wrapcases, wrap_impl):
+        whist['base'][c['base']] = whist['base'].get(c['base'], 0) + 1
+        whist['depth'][len(c['wraps'])] = whist['depth'].get(len(c['wraps']), 0) + 1
+        for w in c['wraps']:
+            k = '+'.join(x for x in (w['distinct'] and 'DISTINCT', w['where'] and 'WHERE ' + w['where'], w['order'] and 'ORDER BY',
+                                     w['limit'] is not None and f'LIMIT {w["limit"]}') if x) or 'nothing'
+            whist['level_clause'][k] = whist['level_clause'].get(k, 0) + 1
+            whist['limit0_only_level'] += k == 'LIMIT 0'
+        if io['q_levelwise'][0] == 0:
+            whist['q_empty' if not io['q_levelwise'][1] else 'q_nonempty'] += 1
+            whist['nonetype_output_column'] += any(t == 'NoneType' for _, t in io['q_levelwise'][2])
+        for f, o in io['forms'].items():
+            whist['outer_form'][f] = whist['outer_form'].get(f, 0) + 1
+            whist['outer_uses_compared'] += 1
+            whist['fold_compared'] += 'fold' in o
+            whist['outer_use_rejected_nested_and_materialised'] += o['nested'][0] != 0 and o['mat'][0] != 0
+        bad = wrap_disagreement(c, io)
+        if bad:
+            nwrap_bad += 1
+            if nwrap_bad <= 3:
+                small = shrink_wrap(c)
+                sio = run_wrap_impl(small)
+                sig = 'wrap:' + (wrap_q_sql(small) or '') + ' params=' + repr(small['params']) + ' forms=' + repr(small['forms']) + ' rows=' + repr(small['rows'])
+                violations.append(core.Violation(
+                    'identity-wrapper-subquery', f'{wrap_text(small)}: {wrap_disagreement(small, sio)}',
+                    {'kind': 'wrap', 'case': small, 'impl': sio}, signature=sig))
     for fn, kind in ((same_type_columns, 'subquery-column-identity'), (nested_in_three_tables, 'nested-in'), (inner_order_kept, 'inner-order'), (look_alike_in_subqueries, 'look-alike-in'),
                      (unique_name_beside_duplicates, 'unique-name-beside-duplicates')):
         nchk, cbad = fn()
@@ -727,7 +963,16 @@ def run(tier, rng):
             violations.append(core.Violation('star-duplicate-names', f'SELECT * FROM ({inner}) raised {e!r}',
                                              {'kind': 'star-dup', 'inner': inner}, signature='star-duplicate-names:' + inner))
     cov = {
-        'evaluations': len(cases) + len(incases) + len(shaped) + len(starcases) + 3 + len(unique_name_beside_duplicates_checks()),
+        'evaluations': len(cases) + len(incases) + len(shaped) + len(starcases) + 3 + len(unique_name_beside_duplicates_checks()) + len(wrapcases),
+        'identity_wrapper_cases': len(wrapcases), 'identity_wrapper_histograms': whist,
+        'identity_wrapper_samples': [wrap_q_sql(c) for c in wrapcases[:5]],
+        'identity_wrapper_rule': 'q = 0-3 levels of SELECT [DISTINCT] * FROM (...) [WHERE FALSE|TRUE|a IS NOT NULL] [ORDER BY a] [LIMIT 0|1|2|3] '
+                                 '(mostly ONE clause per level, LIMIT 0 weighted) over #t or over SELECT a, <NULL | %s bound to None | %s bound to 5 | b> AS x, b FROM #t; '
+                                 'q computed level by level over materialised tables (carrying each level\'s description datatypes) = the clauses folded '
+                                 'in Python = q as one nested statement; then 4-7 outer uses of (q) (SELECT *, twice wrapped, count, WHERE, ORDER/LIMIT, '
+                                 'DISTINCT, a [NOT] IN (SELECT a FROM (q)) from #t; on the x column: SELECT x, x = 7, x + 1, x IS NULL, count(x), ORDER BY x, '
+                                 'x IN (SELECT x FROM (q))): nested vs the same statement over a table holding q\'s rows with q\'s description datatypes '
+                                 '(rows, description, accept/reject) and vs Python membership; SELECT * FROM (q) description = q\'s description',
         'star_special_name_cases': len(starcases), 'star_special_name_histograms': sthist,
         'star_special_name_samples': [c['inner'] for c in starcases[len(star_sweep_cases()):len(star_sweep_cases()) + 4]],
         'unique_name_beside_duplicates_checks': len(unique_name_beside_duplicates_checks()), 'distinct_nontrivial': nontrivial,
@@ -764,6 +1009,11 @@ def replay(rec):
         c['cols'] = [tuple(x) for x in c['cols']]
         c['rows'] = [tuple(c01._unjson(v, t) for v, (_, t) in zip(r, c['cols'])) for r in c['rows']]
         return star_disagreement(c, run_star_impl(c)) is None
+    if rec.get('kind') == 'wrap':
+        c = dict(rec['case'])
+        c['cols'] = [tuple(x) for x in c['cols']]
+        c['rows'] = [tuple(c01._unjson(v, t) for v, (_, t) in zip(r, c['cols'])) for r in c['rows']]
+        return wrap_disagreement(c, run_wrap_impl(c)) is None
     if rec.get('kind') == 'unique-name-beside-duplicates':
         for sql, want, wdesc in unique_name_beside_duplicates_checks():
             if sql == rec['sql']:
